@@ -6,8 +6,8 @@ vicut. What is *proved* here: (1) about VimSpec, the documented behaviour of the
 that motions never touch the text, what `x`/`X` remove, and when a count equals repetition; (2) conformance
 of the vicut model with VimSpec (namespace Conform at the end): on every one-line buffer, cursor and count the
 C08 motion/operator model — the one the correspondence check ties to the real `eval_motion`/`exec_verb` —
-computes exactly VimSpec's result for `[n]h`, `[n]l` (same failure, same column) and leaves exactly VimSpec's
-text for `[n]x` and `[n]X`.
+computes exactly VimSpec's result for `[n]h`, `[n]l` (same failure, same column), `0` and `$`, and leaves exactly
+VimSpec's text for `[n]x` and `[n]X`: the whole fragment.
 -/
 import Vicut.Model.VimSpec
 import Vicut.Model.Motions
@@ -344,6 +344,65 @@ theorem X_conforms (line : List Char) (cur n : Nat) (hn : ∀ c ∈ line, c ≠ 
     rw [List.drop_append_of_le_length (by simp; omega), List.map_drop]
   rw [htake, hdrop]
   simp only [List.flatten_append, flatten_singletons, List.flatten_cons, List.flatten_nil, List.append_nil, List.append_assoc]
+
+/-! ### `0` and `$` -/
+
+theorem afterNl_bufOf (line : List Char) (hn : ∀ c ∈ line, c ≠ '\n') (pos : Nat) :
+    afterNl (bufOf line) pos = some (pos + line.length + 1, []) := by
+  induction line generalizing pos with
+  | nil => simp [bufOf, afterNl, isNl]
+  | cons a t ih =>
+    have ha : a ≠ '\n' := hn a (by simp)
+    have ht : ∀ c ∈ t, c ≠ '\n' := fun c hc => hn c (by simp [hc])
+    have : bufOf (a :: t) = [a] :: bufOf t := by simp [bufOf]
+    rw [this]
+    simp only [afterNl, isNl]
+    have hne : ([a] == ['\n']) = false := by simp [ha]
+    simp only [hne, Bool.false_eq_true, ↓reduceIte]
+    rw [ih ht (pos + 1)]
+    simp; omega
+
+theorem cursorLine_bufOf (line : List Char) (cur : Nat) (hn : ∀ c ∈ line, c ≠ '\n') (hc : cur ≤ line.length) :
+    cursorLine (msOf line cur).lb = 0 := by
+  unfold cursorLine msOf MS.lb bufOf
+  simp only
+  rw [List.take_append_of_le_length (by simpa using hc), ← List.map_take, flatten_singletons]
+  rw [List.count_eq_zero]
+  intro hmem
+  exact hn _ (List.mem_of_mem_take hmem) rfl
+
+theorem thisLine_bufOf (line : List Char) (cur : Nat) (hn : ∀ c ∈ line, c ≠ '\n') (hc : cur ≤ line.length) :
+    (msOf line cur).thisLine = (0, line.length + 1) := by
+  unfold MS.thisLine Vicut.thisLine
+  rw [cursorLine_bufOf line cur hn hc]
+  have hlb : (msOf line cur).lb.gs = bufOf line := rfl
+  rw [hlb]
+  unfold lineBounds
+  have htot : ¬ (0 > totalLines (bufOf line)) := by omega
+  simp only [htot, ↓reduceIte, lineBoundsAux, afterNl_bufOf line hn 0, bufOf_length, Option.getD_some]
+  simp
+
+/-- **`0` conforms**: the model goes to VimSpec's column 0. -/
+theorem zero_conforms (line : List Char) (cur : Nat) (hn : ∀ c ∈ line, c ≠ '\n') (hwf : (VS.mk line cur).WF) (hl : line ≠ []) :
+    ∃ s', step ⟨line, cur⟩ .zero = some s' ∧ evalSimple (msOf line cur) .bol 1 false = .on s'.cur := by
+  have hlen : line.length ≥ 1 := by cases line with | nil => exact absurd rfl hl | cons _ _ => simp
+  have hc1 : cur + 1 ≤ line.length := by simp only [VS.WF] at hwf; omega
+  have hc : cur ≤ line.length := by omega
+  refine ⟨⟨line, 0⟩, rfl, ?_⟩
+  simp [evalSimple, MS.sol, thisLine_bufOf line cur hn hc]
+
+/-- **`$` conforms**: the model lands on the last character of the line, like VimSpec. -/
+theorem dollar_conforms (line : List Char) (cur : Nat) (hn : ∀ c ∈ line, c ≠ '\n') (hwf : (VS.mk line cur).WF) (hl : line ≠ []) :
+    ∃ s', step ⟨line, cur⟩ .dollar = some s' ∧ evalSimple (msOf line cur) .eol 1 false = .on s'.cur := by
+  have hlen : line.length ≥ 1 := by cases line with | nil => exact absurd rfl hl | cons _ _ => simp
+  have hc1 : cur + 1 ≤ line.length := by simp only [VS.WF] at hwf; omega
+  have hc : cur ≤ line.length := by omega
+  refine ⟨⟨line, line.length - 1⟩, rfl, ?_⟩
+  have heol : (msOf line cur).eol = line.length + 1 := by simp [MS.eol, thisLine_bufOf line cur hn hc]
+  have h1 : (msOf line cur).isNlAt line.length = true := by rw [isNlAt_bufOf line cur hn]; simp
+  have h2 : (msOf line cur).isNlAt (line.length - 1) = false := by rw [isNlAt_bufOf line cur hn]; simp; omega
+  simp [evalSimple, heol, h1, h2]
+  intro h; exact absurd h hl
 
 example : (VS.mk ['a', 'b', 'c'] 0).WF ∧ (∀ c ∈ ['a', 'b', 'c'], c ≠ '\n') := by
   refine ⟨by simp [VS.WF], ?_⟩
